@@ -106,6 +106,7 @@ func runC06(c *Ctx) {
 	c.claimBuilder()
 	c.revisionLabelWriters()
 	c.claimsBeforePodUpdate("C06.2-claims-before-pod-update")
+	c.restoredSetComesFromTheRevision()
 }
 
 // claimsBeforePodUpdate: in the pod-update primitive, once the storage repair has pointed the pod's
@@ -897,4 +898,79 @@ func stringParts(info *types.Info, fn *gf.Fn, e ast.Expr) ([]string, bool) {
 	}
 	walk(e)
 	return out, ok
+}
+
+// restoredSetComesFromTheRevision: "the label of the revision it was built from": a pod is built from ApplyRevision(set, R)
+// and stamped R (C07.4), so what ApplyRevision returns has to be R's recorded template applied to the set -- on every
+// path: no successful return is reachable without having passed the call that is handed R's recorded data. (What the
+// stored status says about R is a reconcile old.)
+func (c *Ctx) restoredSetComesFromTheRevision() {
+	const rule = "C06.1-restored-set-comes-from-the-revision"
+	fi := c.Func(load.CtrlPkg, "ApplyRevision")
+	if fi == nil {
+		return
+	}
+	fn, _ := c.Analysis(fi)
+	info := fi.Pkg.TypesInfo
+	var rev *ast.Ident
+	for _, pf := range fi.Decl.Type.Params.List {
+		for _, pn := range pf.Names {
+			if types.TypeString(info.TypeOf(pn), nil) == "*k8s.io/api/apps/v1.ControllerRevision" {
+				rev = pn
+			}
+		}
+	}
+	if rev == nil {
+		c.Fail("ApplyRevision: revision parameter not found")
+		return
+	}
+	var stops []ast.Node
+	for _, bd := range fn.Bodies() {
+		for _, call := range callsIn(bd, true) {
+			uses := false
+			for _, a := range call.Args {
+				ast.Inspect(a, func(x ast.Node) bool {
+					if sel, ok := x.(*ast.SelectorExpr); ok && sel.Sel.Name == "Raw" {
+						if r := rootIdent(sel.X); r != nil && info.ObjectOf(r) == info.ObjectOf(rev) {
+							uses = true
+						}
+					}
+					return true
+				})
+			}
+			if uses {
+				if st := stmtOf(bd, call); st != nil {
+					stops = append(stops, st)
+				}
+			}
+		}
+	}
+	if len(stops) == 0 {
+		c.Bad(rule, "ApplyRevision", fi.Decl.Pos(), "no call is handed the revision's recorded data")
+		return
+	}
+	aU := fn.FromUntil(fi.Decl.Body.List[0], gf.TrueState(), stops...)
+	n := 0
+	ownNodes(fi.Decl.Body, func(x ast.Node) {
+		ret, ok := x.(*ast.ReturnStmt)
+		if !ok || len(ret.Results) == 0 {
+			return
+		}
+		st := aU.StateBefore(ret)
+		if !st.Reachable() {
+			return
+		}
+		last := ret.Results[len(ret.Results)-1]
+		if isErrorCtor(info, last) {
+			return
+		}
+		if g, _ := st.Implies(gf.FNotNil(fn.Term(last))); g && !isNilExpr(info, last) {
+			return
+		}
+		n++
+		c.Bad(rule, fmt.Sprintf("ApplyRevision: return #%d", n), ret.Pos(), "a set is returned as restored from the revision without the revision's recorded data having been applied: a pod built from it carries the revision's label but not its template")
+	})
+	if n == 0 {
+		c.OK(rule, "ApplyRevision", fi.Decl.Pos(), "every successful return has passed the application of revision.Data.Raw")
+	}
 }
